@@ -302,6 +302,33 @@ def rule_d(ctx: Context, R: Reporter, syst: FuncInfo):
         rep = call_arg(s.call, 2, "replace")
         rep_ok = rep is None or const_value(rep) is True
         R.check("C06.d", "draw is with replacement", rep_ok, fi, s.call, msg=f"{fi.short}: replace=`{unparse(rep)}`", key="replace")
+    # scheme names: the draw selected by "mult" is the multinomial one and the routine selected by "syst" the
+    # systematic one (the documented meaning of the option values)
+    from ..util import conds_holding_at as _cha, split_cond as _sc
+
+    def _scheme_facts(fi_, call_):
+        fl_ = flow_of(fi_.node)
+        nd_ = fl_.node_containing(call_)
+        out_ = []
+        for (t_, pol_) in (_cha(fl_.cfg, nd_) if nd_ is not None else []):
+            for (a_, p_) in _sc(t_, pol_):
+                if isinstance(a_, ast.Compare) and len(a_.ops) == 1 and isinstance(a_.ops[0], (ast.Eq, ast.NotEq)) and isinstance(a_.comparators[0], ast.Constant) and isinstance(a_.comparators[0].value, str):
+                    eq = isinstance(a_.ops[0], ast.Eq) == p_
+                    out_.append((a_.comparators[0].value, eq))
+        return out_
+
+    for s in ctx.rng.draws():
+        if s.name == "numpy.random.choice" and "weights" in s.func.params and any(isinstance(t, FuncInfo) and t is syst for (c, tg) in ctx.cg.sites.get(s.func.qualname, []) for t in tg):
+            fs = _scheme_facts(s.func, s.call)
+            bad = [v for (v, eq) in fs if (eq and v.startswith("syst")) or (not eq and v.startswith("mult"))]
+            R.check("C06.d", "the multinomial draw is the one selected by resample='mult'", not bad, s.func, s.call,
+                    msg=f"{s.func.short}: the multinomial draw runs under {fs}: the option values select the other scheme than documented", key="scheme-name:mult")
+            for (c, tg) in ctx.cg.sites.get(s.func.qualname, []):
+                if any(t is syst for t in tg):
+                    fs2 = _scheme_facts(s.func, c)
+                    bad2 = [v for (v, eq) in fs2 if (eq and v.startswith("mult")) or (not eq and v.startswith("syst"))]
+                    R.check("C06.d", "the systematic routine is the one selected by resample='syst'", not bad2, s.func, c,
+                            msg=f"{s.func.short}: the systematic routine runs under {fs2}: the option values select the other scheme than documented", key="scheme-name:syst")
     # numpy's own contracts differ: Generator/RandomState.choice accepts |sum(p) - 1| <= sqrt(eps) (the tolerance
     # the property quantifies over), multinomial(n, pvals) raises as soon as sum(pvals[:-1]) > 1 + 1e-12 and silently
     # hands the residual mass to the last category.  Raw weights passed to multinomial are outside its contract.
@@ -445,6 +472,7 @@ def variants():
         Variant("c-positions-no-offset-div", "bad", replace_expr(tl, "systematic_resample", "(np.random.random() + np.arange(size)) / size", "np.random.random() + np.arange(size) / size"), ["C06.c"]),
         Variant("d-p-uniform", "bad", replace_expr(rs, "Resampler.run", "np.random.choice(np.arange(len(weights)), size=self.n_particles, replace=True, p=weights)", "np.random.choice(np.arange(len(weights)), size=self.n_particles, replace=True, p=weights ** 2 / np.sum(weights ** 2))"), ["C06.d", "ANALYSIS-ERROR"]),
         Variant("d-multinomial-counts", "bad", replace_stmt(rs, "Resampler.run", "idx_resampled = np.random.choice(np.arange(len(weights)), size=self.n_particles, replace=True, p=weights)", "idx_resampled = np.repeat(np.arange(len(weights)), np.random.multinomial(self.n_particles, weights))"), ["C06.d"]),
+        Variant("d-schemes-swapped", "bad", replace_expr(rs, "Resampler.run", "self.resample == 'mult'", "self.resample != 'mult'"), ["C06.d"]),
         Variant("d-no-replace", "bad", set_keyword(rs, "Resampler.run", "np.random.choice", "replace", "False"), ["C06.d"]),
         Variant("d-population-short", "bad", replace_expr(rs, "Resampler.run", "np.arange(len(weights))", "np.arange(self.n_particles)"), ["C06.d"], quick=True),
         Variant("benign-bound-form", "benign", replace_expr(tl, "systematic_resample", "j < len(weights) - 1", "j + 1 < len(weights)"), quick=True),
